@@ -177,7 +177,7 @@ def main(tier, seed):
     lib.build_coq()
     lib.build_driver()
     lib.build_harness()
-    n = lib.ncases(120 if tier == "quick" else 12000)
+    n = lib.ncases(180 if tier == "quick" else 12000)
     rng = random.Random(seed * 7919 + 14)
     d = lib.casedir(PID)
     profiles = [{"ntypes": 1, "positive_costs": True}, {"ntypes": 1, "positive_costs": True, "slots": "some"},
